@@ -62,28 +62,47 @@ def _returned_set(ctx: Ctx, c: Collector, qn: str) -> None:
     if not cs:
         pr.append("no connection is ever made")
     rets = s.returns
-    if len(rets) != 1:
-        pr.append("more than one return")
-    else:
-        rv = rets[0].term
+    if not rets:
+        pr.append("nothing is returned")
+    got_all, bad_shape = [], False
+    defs = [b for b in s.of_kind("bind") if b.term[2] in (call(T.glob("set")), ("bag", (), "set"), ("bag", (), "list"))]
+    d = len(defs[0].guards) if defs else 0
+    for r in rets:
+        rv = r.term
+        if rv[0] == "var":
+            # a set that stayed a named object (it is filled through a helper): its elements are the `add`
+            # calls on that name, initialised empty
+            init = [b for b in s.of_kind("bind") if b.term[1] == rv]
+            empty = (call(T.glob("set")), ("bag", (), "set"), ("bag", (), "list"), call(T.glob("list")))
+            if len(init) == 1 and T.strip(init[0].term[2]) in empty:
+                d0 = len(init[0].guards)
+                adds = [e for e in s.of_kind("call") if e.term[1] in (("attr", rv, "add"), ("attr", rv, "append")) and len(e.term[2]) == 1 and e.idx < r.idx]
+                other = [e for e in s.of_kind("call") if e.term[1][0] == "attr" and e.term[1][1] == rv and e.term[1][2] not in ("add", "append")]
+                if not other:
+                    got_all += [(repr(e.term[2][0]), repr(_drop_idempotent(tuple(e.guards[d0:]), e.term[2][0])), repr(tuple(e.iters))) for e in adds]
+                    d = d0
+                    continue
         if rv[0] != "bag":
+            bad_shape = True
             pr.append(f"the returned value {T.show(rv)[:80]} is not the set that is filled next to the connect calls: "
                       "it need not be the set of destinations that received a connection")
-        else:
-            # element guards are relative to the accumulator's definition; connect events are absolute
-            defs = [b for b in s.of_kind("bind") if b.term[2] in (call(T.glob("set")), ("bag", (), "set"), ("bag", (), "list"))]
-            d = len(defs[0].guards) if defs else 0
-            got = sorted((repr(x[1]), repr(_drop_idempotent(x[2], x[1])), repr(x[3])) for x in rv[1])
-            want = sorted((repr(e.term[2][1]), repr(tuple(e.guards[d:])), repr(tuple(e.iters))) for e in cs)
-            if got != want:
-                gd = sorted({a for a, _, _ in got})
-                wd = sorted({a for a, _, _ in want})
-                if gd != wd:
-                    pr.append("the returned set is filled with something other than the destination passed to connect()")
-                elif sorted((a, c2) for a, _, c2 in got) != sorted((a, c2) for a, _, c2 in want):
-                    pr.append("the returned set is not filled once per connect call (different loop nest)")
-                else:
-                    pr.append("a destination is added to the returned set under a different condition than the one under which it is connected")
+            continue
+        # element guards are relative to the accumulator's definition; connect events are absolute
+        got_all += [(repr(x[1]), repr(_drop_idempotent(x[2], x[1])), repr(x[3])) for x in rv[1]]
+    if rets and not bad_shape:
+        # several returns (a fast path and the general path) each hand out the accumulator as filled on
+        # their own path: together they must cover exactly the connect sites
+        got = sorted(set(got_all))
+        want = sorted(set((repr(e.term[2][1]), repr(tuple(e.guards[d:])), repr(tuple(e.iters))) for e in cs))
+        if got != want:
+            gd = sorted({a for a, _, _ in got})
+            wd = sorted({a for a, _, _ in want})
+            if gd != wd:
+                pr.append("the returned set is filled with something other than the destination passed to connect()")
+            elif sorted((a, c2) for a, _, c2 in got) != sorted((a, c2) for a, _, c2 in want):
+                pr.append("the returned set is not filled once per connect call (different loop nest)")
+            else:
+                pr.append("a destination is added to the returned set under a different condition than the one under which it is connected")
     c.add("returned", qn, "returned set == destinations passed to connect", VIOLATED if pr else DISCHARGED, "; ".join(pr), fi.loc)
 
 
@@ -102,22 +121,43 @@ def _rel(iters, ret: Event):
     return tuple(iters)
 
 
+def _asserted(s: Summary):
+    return {a.term[1] for a in s.of_kind("assert")}
+
+
+def _own_guards(s: Summary, e: Event):
+    """Guards of an event that are not top-level assertions of the function."""
+    asserted = _asserted(s)
+    return [g for g in e.guards if not (g[1] in asserted and g[2])]
+
+
 def _once_per_source(ctx: Ctx, c: Collector) -> None:
+    """Every connect site sits in a loop over src_set and connects the loop's source; under every
+    combination of the conditions that select between several sites (a fast path and the general
+    path) exactly one of them runs."""
+    from . import tables
+    from .. import boolfn
     fi = ctx.func(RANDOMLY)
     s = ctx.summ(RANDOMLY)
     world, srcs = T.var(fi.params[0]), T.var(fi.params[1])
     cs = _connects(s, world)
     pr = []
-    if len(cs) != 1:
-        pr.append(f"{len(cs)} connect call sites")
-    else:
-        e = cs[0]
-        own = [g for g in e.guards if T.guard_term(g)[0] != "cmp" or "max_connects" not in T.show(g)]
+    if not cs:
+        pr.append("no connect call site")
+    for e in cs:
         if len(e.iters) != 1 or T.strip(e.iters[0][2]) != srcs or e.term[2][0] != e.iters[0][1]:
-            pr.append("connect is not called exactly once for every element of src_set")
-        if [g for g in e.guards if not any(a.kind == "assert" and a.term[1] == g[1] for a in s.of_kind("assert"))]:
-            pr.append("the connection of a source is conditional")
-    c.add("once", RANDOMLY, "exactly one connect per source", VIOLATED if pr else DISCHARGED, "; ".join(pr), fi.loc)
+            pr.append(f"the connect call at line {e.lineno} is not called exactly once for every element of src_set")
+    if cs and not pr:
+        try:
+            for a, fired in tables.rows([(f"site@{e.lineno}", _own_guards(s, e)) for e in cs]):
+                if len(fired) == 0:
+                    pr.append("the connection of a source is conditional" + (f" (no connect when {tables.describe(a)})" if a else ""))
+                elif len(fired) > 1:
+                    pr.append(f"a source is connected more than once ({', '.join(fired)} both run when {tables.describe(a) or 'always'})")
+        except boolfn.NotBoolean as ex:
+            c.unk("once", RANDOMLY, "exactly one connect per source", f"condition not understood: {ex}", fi.loc)
+            return
+    c.add("once", RANDOMLY, "exactly one connect per source", VIOLATED if pr else DISCHARGED, "; ".join(sorted(set(pr))), fi.loc)
 
 
 def _chunking(ctx: Ctx, c: Collector) -> None:
@@ -142,8 +182,9 @@ def _chunking(ctx: Ctx, c: Collector) -> None:
             else:
                 pos = z[2][0][2][1]
                 window = z[2][1]
-                if z[2][0][2][2] != T.NONE:
-                    pr.append("the source window has an upper bound")
+                hi = z[2][0][2][2]
+                if hi != T.NONE and unalias(hi, s, fi) not in (("op", "+", pos, call(T.glob("len"), window)), ("op", "+", call(T.glob("len"), window), pos)):
+                    pr.append(f"the source window is cut at {T.show(hi)[:40]}, not after one round of len(dest_set) sources")
                 if cond != ("cmp", "<", pos, call(T.glob("len"), srcs)):
                     pr.append(f"loop condition is {T.show(cond)} instead of pos < len(src_set)")
                 if its[1][1][0] != "tuple" or e.term[2][:2] != its[1][1][1]:
@@ -174,16 +215,44 @@ def _capacity(ctx: Ctx, c: Collector) -> None:
     s = ctx.summ(RANDOMLY)
     world, srcs, dests = (T.var(fi.params[i]) for i in range(3))
     cs = _connects(s, world)
-    if len(cs) != 1:
-        return
-    e = cs[0]
-    dest = e.term[2][1]
     mc = T.var("max_connects")
     pr: List[str] = []
+    if not cs:
+        pr.append("no connect call site")
+    for e in cs:
+        pr += _capacity_site(s, e, srcs, dests, mc, many=len(cs) > 1, fi=fi)
+    c.add("capacity", RANDOMLY, "count++ then remove iff count >= max_connects", VIOLATED if pr else DISCHARGED, "; ".join(pr), fi.loc)
+
+
+def _limit_unreachable(s: Summary, e: Event, srcs: Term, mc: Term) -> bool:
+    """The site's own guards bound the number of sources by max_connects (or make it infinite):
+    no destination can then exceed the limit, whatever is drawn."""
+    n = call(T.glob("len"), srcs)
+    for g in _own_guards(s, e):
+        gt = T.guard_term(g)
+        conj = list(gt[1]) if gt[0] == "and" else [gt]
+        for x in conj:
+            if x[0] == "cmp" and x[1] in ("<=", "<") and x[2] == n and x[3] == mc:
+                return True
+            if x[0] == "cmp" and x[1] == "==" and mc in (x[2], x[3]) and any(y[0] == "call" and y[1] == T.glob("float") for y in (x[2], x[3])):
+                return True
+            if x[0] == "call" and x[1][0] == "glob" and x[1][1].endswith("isinf") and x[2] == (mc,):
+                return True
+    return False
+
+
+def _capacity_site(s: Summary, e: Event, srcs: Term, dests: Term, mc: Term, many: bool, fi: Optional[FuncInfo] = None) -> List[str]:
+    dest = e.term[2][1]
+    pr: List[str] = []
+    where = f"connect at line {e.lineno}: " if many else ""
+    if _limit_unreachable(s, e, srcs, mc):
+        return pr
     counts = [x for x in s.of_kind("store") if x.term[1][0] == "idx" and x.term[1][2] == dest and x.iters == e.iters]
     cnt_tab = counts[0].term[1][1] if counts else None
     if not counts:
-        pr.append("connections per destination are not counted")
+        own = [T.show_guard(g)[:60] for g in _own_guards(s, e)]
+        pr.append(where + "connections per destination are not counted" + (f" on the path taken when {' and '.join(own)}, which does not bound the number of sources by max_connects: "
+                  "a destination can receive more than max_connects connections" if own else ""))
     else:
         okc = any(x.guards == e.guards and x.term[2] == ("op", "+", call(("attr", cnt_tab, "get"), dest, T.const(0)), T.const(1)) for x in counts) \
             or any(x.guards == e.guards and x.term[2][0] == "op" and x.term[2][1] == "+" and x.term[2][3] == T.const(1) for x in counts)
@@ -212,9 +281,12 @@ def _capacity(ctx: Ctx, c: Collector) -> None:
                 pr.append("the capacity test precedes the increment")
             # the index bound shrinks together with the candidate list
             dec = [b for b in s.of_kind("bind") if b.guards == r.guards and b.term[2][0] == "op" and b.term[2][1] == "-" and b.term[2][3] == T.const(1)]
-            if not dec:
+            # ... or the bound is read off the candidate list at every draw
+            fresh = any(x.kind == "call" and x.iters == e.iters and x.term[1][0] in ("glob", "var", "attr") and len(x.term[2]) == 2
+                        and unalias(x.term[2][1], s, fi) == ("op", "-", call(T.glob("len"), dests), T.const(1)) for x in s.of_kind("call"))
+            if not dec and not fresh:
                 pr.append("the random index bound is not decremented when a destination is removed")
-    c.add("capacity", RANDOMLY, "count++ then remove iff count >= max_connects", VIOLATED if pr else DISCHARGED, "; ".join(pr), fi.loc)
+    return pr
 
 
 def _front(ctx: Ctx, c: Collector) -> None:
